@@ -360,26 +360,31 @@ inductive Near where
 def getSubstr (line : List Char) (w : Nat × Nat) : Option (List Char) :=
   if w.1 ≤ w.1 + w.2 ∧ w.1 + w.2 ≤ line.length then some ((line.drop w.1).take w.2) else none
 
-/-- the `format!` of the excerpt around word `i`: previous word + space, the word, space + next word -/
+/-- `word_index.checked_sub(1).and_then(|i| words.get(i)).map(|w| get_substr(w) + " ").unwrap_or(String::new())`
+(`none` = the slice panics) -/
+def prevPart (line : List Char) (all : List (Nat × Nat)) (i : Nat) : Option (List Char) :=
+  match (if i = 0 then none else all[i - 1]?) with
+  | none => some []
+  | some p => (getSubstr line p).map (· ++ [' '])
+
+/-- `words.get(word_index + 1).map(|w| " " + &get_substr(w)).unwrap_or(String::new())` -/
+def nextPart (line : List Char) (all : List (Nat × Nat)) (i : Nat) : Option (List Char) :=
+  match all[i + 1]? with
+  | none => some []
+  | some n => (getSubstr line n).map (' ' :: ·)
+
+/-- the `format!` of the excerpt around word `i`: previous word + space, the word, space + next word
+(arguments evaluated in this order) -/
 def excerpt (line : List Char) (all : List (Nat × Nat)) (i : Nat) (w : Nat × Nat) : Near :=
-  let prevW := if i = 0 then none else all[i - 1]?      -- `word_index.checked_sub(1).and_then(|i| words.get(i))`
-  let nextW := all[i + 1]?                              -- `words.get(word_index + 1)`
-  let prev : Option (List Char) :=
-    match prevW with
-    | none => some []
-    | some p => (getSubstr line p).map (· ++ [' '])
-  match prev with
+  match prevPart line all i with
   | none => .panic "slice(prev)"
   | some a =>
     match getSubstr line w with
     | none => .panic "slice(word)"
     | some b =>
-      match nextW with
-      | none => .text (a ++ b)
-      | some n =>
-        match getSubstr line n with
-        | none => .panic "slice(next)"
-        | some c => .text (a ++ b ++ ' ' :: c)
+      match nextPart line all i with
+      | none => .panic "slice(next)"
+      | some c => .text (a ++ b ++ c)
 
 /-- the `for (word_index, …) in words.iter().enumerate()` loop with its `break` -/
 def nearFrom (line : List Char) (col : Nat) (all : List (Nat × Nat)) : Nat → List (Nat × Nat) → Near
